@@ -5,7 +5,8 @@ from .. import common, callcheck, meta
 
 LEVEL = "proof"
 RULE = ("Lean (rejected_reported): for every declared parameter type and argument type, if every possible value of the argument (its variants when it is a union) is rejected by the parameter, "
-        "checkArgType reports a mismatch, and for positional signatures a call with too many arguments, a missing required argument or an all-rejected argument is reported (bind_pos_ok_iff; binding loop model tied by the `bind` stream) (model of IsMatchType / isCoveredBy / isAcceptVariant / IsMatchUnionType / checkArgType, tied by the `match` stream through the verif hook). "
+        "checkArgType reports a mismatch, and for positional signatures a call with too many arguments, a missing required argument or an all-rejected argument is reported (bind_pos_ok_iff; binding loop model tied by the `bind` stream) (model of IsMatchType / isCoveredBy / isAcceptVariant / IsMatchUnionType / checkArgType, tied by the `match` stream through the verif hook). Union receivers: if for one class of the union every declaration (first and overloads) rejects the arguments the call is an error, for any number of classes and overloads "
+        "(union_rejected_reported on Bind.bindUnion, tied to checkAndPropagateArgsForUnionWithReturnT by the `bindu` stream through a hook). "
         "End-to-end: generated configurations (2-5 classes with extends chains, overloads, required/default/rest/keyword parameters, union and class-typed parameters) next to the shipped test "
         "configuration, and generated programs (literals, locals, ternary unions as receivers and arguments, instance and class-method calls, nested in if/unless/times blocks); a class-level oracle "
         "marks each call CERTAINLY FAILING (no receiver class has the method, or for every declaration the count is out of range or some argument's classes are all rejected); every such row "
@@ -32,7 +33,9 @@ def run(ctx):
     common.build_godrv(ctx)
     proof_ok = common.prove(ctx)
     dis = {"match": common.run_stream(ctx, "match", callcheck.match_ops(ctx.rng, ctx.pick(20000, 200000))),
-           "bind": common.run_stream(ctx, "bind", callcheck.bind_ops(ctx.rng, ctx.pick(12000, 120000)), cwd=common.make_workdir(ctx, "bindcfg"))}
+           "bind": common.run_stream(ctx, "bind", callcheck.bind_ops(ctx.rng, ctx.pick(12000, 120000)), cwd=common.make_workdir(ctx, "bindcfg")),
+           # union receivers with overloaded declarations: checkAndPropagateArgsForUnionWithReturnT against Bind.bindUnion
+           "bindu": common.run_stream(ctx, "bindu", callcheck.bindu_ops(ctx.rng, ctx.pick(8000, 80000)), cwd=common.make_workdir(ctx, "bindcfg"))}
     replay_k28(ctx)
     failures = callcheck.run_calls(ctx, ctx.pick(22, 220), 14, "a")["C07"]
 
